@@ -620,4 +620,719 @@ theorem go_eq_dowild_starfree (m : Mode) (d : Nat) (pattern text : Bytes) (hok :
                 simp [hne, this, ofWm]
 
 
+
+/-! ### runs of literal pattern bytes; the shortcuts of `Pattern::matches` -/
+
+/-- what the matcher does on a run of non-glob pattern bytes: the rest of the text, or the early result -/
+def litRun (m : Mode) : Bytes → Bytes → Except Res Bytes
+  | [], ts => .ok ts
+  | _ :: _, [] => .error .abortAll
+  | c :: r, tc :: tr => if lc m c ≠ lc m tc then .error .noMatch else litRun m r tr
+
+theorem lc_glob (m : Mode) (c : UInt8) : isGlobCharacter (lc m c) = isGlobCharacter c := by
+  obtain ⟨s42, s92, s63, s91, _, _, _⟩ := lc_special m c
+  unfold isGlobCharacter
+  rw [Bool.eq_iff_iff]
+  simp only [Bool.or_eq_true, beq_iff_eq, s42, s63, s91, s92]
+
+theorem not_glob {c : UInt8} (h : isGlobCharacter c = false) : c ≠ 42 ∧ c ≠ 63 ∧ c ≠ 91 ∧ c ≠ 92 := by
+  unfold isGlobCharacter at h
+  simp at h
+  exact ⟨h.1.1.1, h.1.1.2, h.1.2, h.2⟩
+
+theorem go_litRun (m : Mode) (d : Nat) (pattern text : Bytes) :
+    ∀ (lit rest ts : Bytes) (fuel i ti : Nat), (∀ c ∈ lit, isGlobCharacter c = false) →
+      go m (fuel + lit.length) d pattern text ⟨i, lit ++ rest⟩ ⟨ti, ts⟩ =
+        match litRun m lit ts with
+        | .error r => r
+        | .ok ts' => go m fuel d pattern text ⟨i + lit.length, rest⟩ ⟨ti + lit.length, ts'⟩ := by
+  intro lit
+  induction lit with
+  | nil => intros; simp [litRun]
+  | cons c r ih =>
+    intro rest ts fuel i ti hg
+    have hc := not_glob ((lc_glob m c).trans (hg c (by simp)))
+    have hr : ∀ x ∈ r, isGlobCharacter x = false := fun x hx => hg x (by simp [hx])
+    have e : fuel + (c :: r).length = (fuel + r.length) + 1 := by simp; omega
+    rw [e]
+    cases ts with
+    | nil => simp only [List.cons_append]; rw [go_abort hc.1]; simp [litRun]
+    | cons tc tr =>
+      simp only [List.cons_append]
+      rw [go_lit hc.1 hc.2.2.2 hc.2.1 hc.2.2.1]
+      by_cases hne : lc m c = lc m tc
+      · simp only [hne, ne_eq, not_true_eq_false, if_false, litRun]
+        rw [ih rest tr fuel (i + 1) (ti + 1) hr]
+        simp only [List.length_cons]
+        have e1 : i + 1 + r.length = i + (r.length + 1) := by omega
+        have e2 : ti + 1 + r.length = ti + (r.length + 1) := by omega
+        rw [e1, e2]
+      · simp [hne, litRun]
+
+
+theorem litRun_ok_iff (m : Mode) : ∀ (lit ts ts' : Bytes),
+    litRun m lit ts = .ok ts' ↔
+      (lit.length ≤ ts.length ∧ (ts.take lit.length).map (lc m) = lit.map (lc m) ∧ ts' = ts.drop lit.length) := by
+  intro lit
+  induction lit with
+  | nil => intro ts ts'; simp [litRun]; exact eq_comm
+  | cons c r ih =>
+    intro ts ts'
+    cases ts with
+    | nil => simp [litRun]
+    | cons tc tr =>
+      by_cases h : lc m c = lc m tc
+      · simp [litRun, h, ih tr ts']
+      · have h' : ¬ lc m tc = lc m c := fun e => h e.symm
+        simp [litRun, h, h']
+
+theorem litRun_error (m : Mode) : ∀ (lit ts : Bytes) (r : Res),
+    litRun m lit ts = .error r → r = .abortAll ∨ r = .noMatch := by
+  intro lit
+  induction lit with
+  | nil => intro ts r h; simp [litRun] at h
+  | cons c rs ih =>
+    intro ts r h
+    cases ts with
+    | nil => simp [litRun] at h; exact Or.inl h.symm
+    | cons tc tr =>
+      by_cases e : lc m c = lc m tc
+      · simp [litRun, e] at h; exact ih tr r h
+      · simp [litRun, e] at h; exact Or.inr h.symm
+
+theorem firstWildcardPos_none {l : Bytes} : firstWildcardPos l = none ↔ ∀ c ∈ l, isGlobCharacter c = false := by
+  induction l with
+  | nil => simp [firstWildcardPos]
+  | cons a r ih =>
+    by_cases h : isGlobCharacter a = true
+    · simp [firstWildcardPos, h]
+    · simp at h
+      simp [firstWildcardPos, h, ih]
+
+/-- a pattern without glob characters matches exactly the texts equal to it (after the mode's case folding) -/
+theorem wildmatch_literal (m : Mode) (text value : Bytes) (hg : ∀ c ∈ text, isGlobCharacter c = false) :
+    C36.wildmatch m text value = true ↔ value.map (lc m) = text.map (lc m) := by
+  unfold C36.wildmatch matchRecursive RECURSION_LIMIT
+  simp only [beq_iff_eq]
+  have h := go_litRun m 63 text value text [] value 1 0 0 hg
+  rw [List.append_nil, Nat.add_comm] at h
+  simp only [Iter.ofSlice]
+  rw [h]
+  cases hl : litRun m text value with
+  | error r =>
+    rcases litRun_error m text value r hl with e | e <;> subst e <;> simp
+    all_goals
+      intro heq
+      have : litRun m text value = .ok [] := by
+        rw [litRun_ok_iff]
+        have hlen := congrArg List.length heq
+        simp at hlen
+        refine ⟨by omega, ?_, ?_⟩
+        · rw [← hlen, List.take_length]; exact heq
+        · rw [← hlen]; simp
+      rw [this] at hl; cases hl
+  | ok ts' =>
+    have := (litRun_ok_iff m text value ts').mp hl
+    obtain ⟨h1, h2, h3⟩ := this
+    show go m (0 + 1) 63 text value ⟨0 + text.length, []⟩ ⟨0 + text.length, ts'⟩ = Res.matched ↔ _
+    rw [go_nil]
+    constructor
+    · intro hm
+      have hts : ts' = [] := by
+        cases ts' with
+        | nil => rfl
+        | cons a b => simp at hm
+      rw [hts] at h3
+      have hlen : value.length ≤ text.length := by
+        have := congrArg List.length h3
+        simp at this
+        omega
+      have : value.length = text.length := by omega
+      rw [← this, List.take_length] at h2
+      exact h2
+    · intro heq
+      have hlen := congrArg List.length heq
+      simp at hlen
+      have : ts' = [] := by rw [h3, ← hlen]; simp
+      simp [this]
+
+
+theorem firstWildcardPos_some {l : Bytes} {pos : Nat} (h : firstWildcardPos l = some pos) :
+    pos < l.length ∧ (∀ c ∈ l.take pos, isGlobCharacter c = false) ∧ (∃ g, l[pos]? = some g ∧ isGlobCharacter g = true) := by
+  induction l generalizing pos with
+  | nil => simp [firstWildcardPos] at h
+  | cons a r ih =>
+    by_cases hg : isGlobCharacter a = true
+    · simp [firstWildcardPos, hg] at h
+      subst h
+      simp [hg]
+    · simp at hg
+      simp [firstWildcardPos, hg] at h
+      obtain ⟨q, hq, hpq⟩ := h
+      subst hpq
+      obtain ⟨h1, h2, h3⟩ := ih hq
+      refine ⟨by simp; omega, ?_, ?_⟩
+      · intro c hc
+        simp at hc
+        rcases hc with e | e
+        · subst e; exact hg
+        · exact h2 c e
+      · simpa using h3
+
+/-- a match implies that the glob-free prefix of the pattern equals the start of the text -/
+theorem wildmatch_prefix (m : Mode) (text value : Bytes) (pos : Nat) (hpos : pos ≤ text.length)
+    (hg : ∀ c ∈ text.take pos, isGlobCharacter c = false) (hm : C36.wildmatch m text value = true) :
+    pos ≤ value.length ∧ (value.take pos).map (lc m) = (text.take pos).map (lc m) := by
+  unfold C36.wildmatch matchRecursive RECURSION_LIMIT at hm
+  simp only [beq_iff_eq, Iter.ofSlice] at hm
+  have hlen : (text.take pos).length = pos := by simp [Nat.min_eq_left hpos]
+  have h := go_litRun m 63 text value (text.take pos) (text.drop pos) value (text.length + 1 - pos) 0 0 hg
+  rw [List.take_append_drop, hlen] at h
+  have e : text.length + 1 - pos + pos = text.length + 1 := by omega
+  rw [e] at h
+  rw [h] at hm
+  cases hl : litRun m (text.take pos) value with
+  | error r =>
+    rw [hl] at hm
+    rcases litRun_error m _ value r hl with e | e <;> subst e <;> simp at hm
+  | ok ts' =>
+    obtain ⟨h1, h2, _⟩ := (litRun_ok_iff m _ value ts').mp hl
+    rw [hlen] at h1 h2
+    exact ⟨h1, h2⟩
+
+
+
+/-- `match_recursive(pattern[pIdx..], text[k..], mode, depth + 1)` as called from `go` with `d` levels left -/
+def recCall (m : Mode) (fuel d : Nat) (pattern text : Bytes) (pIdx k : Nat) : Res :=
+  match sliceFrom pattern pIdx, sliceFrom text k with
+  | some pat, some txt =>
+    if d == 0 then .recursionLimit else go m fuel (d - 1) pat txt (Iter.ofSlice pat) (Iter.ofSlice txt)
+  | _, _ => .panic
+
+theorem go_star_lit {m : Mode} {fuel d : Nat} {pattern text : Bytes} {l0 tc : UInt8} {lit' tr : Bytes}
+    (h0 : lc m l0 ≠ 42) (hns : ¬ (m.noMatchSlash = true ∧ lc m l0 = 47)) :
+    go m (fuel + 1) d pattern text ⟨0, 42 :: l0 :: lit'⟩ ⟨0, tc :: tr⟩ =
+      starLoop m (fun k => recCall m fuel d pattern text 1 k) (lc m l0) (!m.noMatchSlash)
+        (tr.length + 1) 0 (lc m tc) ⟨1, tr⟩ := by
+  conv => lhs; unfold go
+  have e42 : lc m 42 = 42 := ((lc_special m 42).1).mpr rfl
+  simp [Iter.next, STAR, BACKSLASH, SLASH, e42, h0, recCall]
+  rw [if_neg hns]
+  congr 1
+
+
+/-- text exhausted at the star: the sentinel state -/
+theorem go_star_lit_nil {m : Mode} {fuel d : Nat} {pattern text : Bytes} {l0 : UInt8} {lit' : Bytes}
+    (h0 : lc m l0 ≠ 42) (hns : ¬ (m.noMatchSlash = true ∧ lc m l0 = 47)) :
+    go m (fuel + 1) d pattern text ⟨0, 42 :: l0 :: lit'⟩ ⟨0, []⟩ =
+      starLoop m (fun k => recCall m fuel d pattern text 1 k) (lc m l0) (!m.noMatchSlash)
+        1 text.length 0 ⟨0, []⟩ := by
+  conv => lhs; unfold go
+  have e42 : lc m 42 = 42 := ((lc_special m 42).1).mpr rfl
+  simp [Iter.next, STAR, BACKSLASH, SLASH, e42, h0, recCall]
+  rw [if_neg hns]
+  congr 1
+
+/-- a lone trailing star -/
+theorem go_star_end {m : Mode} {fuel d : Nat} {pattern text : Bytes} {ts : Bytes} :
+    go m (fuel + 1) d pattern text ⟨0, [42]⟩ ⟨0, ts⟩ =
+      match sliceFrom text (if ts.isEmpty then text.length else 0) with
+      | none => .panic
+      | some s => if m.noMatchSlash && s.contains 47 then .noMatch else .matched := by
+  conv => lhs; unfold go
+  have e42 : lc m 42 = 42 := ((lc_special m 42).1).mpr rfl
+  cases ts <;> simp [Iter.next, STAR, BACKSLASH, SLASH, e42]
+  · generalize sliceFrom text text.length = x; cases x <;> rfl
+  · generalize sliceFrom text 0 = x; cases x <;> rfl
+
+/-- `*` then `/` in path mode: jump to the next slash of the text -/
+theorem go_star_slash_none {m : Mode} {fuel d : Nat} {pattern text : Bytes} {l0 : UInt8} {lit' ts : Bytes}
+    (hns : m.noMatchSlash = true ∧ lc m l0 = 47) (htext : text = ts) (hslash : ∀ c ∈ ts, c ≠ 47) :
+    go m (fuel + 1) d pattern text ⟨0, 42 :: l0 :: lit'⟩ ⟨0, ts⟩ = .noMatch := by
+  conv => lhs; unfold go
+  have e42 : lc m 42 = 42 := ((lc_special m 42).1).mpr rfl
+  have h0 : lc m l0 ≠ 42 := by rw [hns.2]; decide
+  have hf : ∀ (l : Bytes), (∀ c ∈ l, c ≠ 47) → findSlash l = none := by
+    intro l
+    induction l with
+    | nil => intro; rfl
+    | cons a r ih =>
+      intro h
+      have ha : a ≠ 47 := h a (by simp)
+      simp [findSlash, SLASH, ha, ih (fun x hx => h x (by simp [hx]))]
+  subst htext
+  cases text with
+  | nil => simp [Iter.next, STAR, BACKSLASH, SLASH, e42, h0, hns.1, hns.2, sliceFrom, findSlash]
+  | cons a r => simp [Iter.next, STAR, BACKSLASH, SLASH, e42, h0, hns.1, hns.2, sliceFrom, hf _ hslash]
+
+/-- a `Match` of the loop behind a star comes from one of its recursive calls -/
+theorem starLoop_sound (m : Mode) (rec : Nat → Res) (pch : UInt8) (ms : Bool) :
+    ∀ (n tIdx : Nat) (tch : UInt8) (t : Iter),
+      starLoop m rec pch ms n tIdx tch t = .matched → ∃ k, rec k = .matched := by
+  intro n
+  induction n with
+  | zero => intro tIdx tch t h; simp [starLoop] at h
+  | succ n ih =>
+    intro tIdx tch t h
+    unfold starLoop at h
+    simp only at h
+    split at h
+    · simp at h
+    · rename_i tIdx' tch' t' _
+      by_cases hr : rec tIdx' = .matched
+      · exact ⟨tIdx', hr⟩
+      · split at h
+        · rename_i hc; exact absurd h hr
+        · split at h
+          · simp at h
+          · cases hn : t'.next m with
+            | none => simp [hn] at h
+            | some x =>
+              obtain ⟨⟨i, c⟩, t''⟩ := x
+              simp [hn] at h
+              exact ih i c t'' h
+
+
+theorem scanLit_hit (m : Mode) (ms : Bool) (pch : UInt8) (tIdx i : Nat) (rest : Bytes) :
+    scanLit m ms pch tIdx pch i rest = (tIdx, pch, ⟨i, rest⟩) := by
+  cases rest <;> simp [scanLit]
+
+theorem scanLit_skip (m : Mode) (ms : Bool) (pch tch : UInt8) (tIdx i : Nat) (c : UInt8) (rest : Bytes)
+    (h1 : ¬ (ms = false ∧ tch = 47)) (h2 : tch ≠ pch) :
+    scanLit m ms pch tIdx tch i (c :: rest) = scanLit m ms pch i (lc m c) (i + 1) rest := by
+  have : ((!ms && tch == SLASH) || tch == pch) = false := by
+    simp [SLASH, h2]
+    intro h; cases ms <;> simp_all
+  rw [scanLit]
+  simp [this]
+
+theorem starLoop_skip (m : Mode) (rec : Nat → Res) (ms : Bool) (pch tch : UInt8) (hg : isGlobCharacter pch = false)
+    (n tIdx i : Nat) (c : UInt8) (rest : Bytes) (h1 : ¬ (ms = false ∧ tch = 47)) (h2 : tch ≠ pch) :
+    starLoop m rec pch ms (n + 1) tIdx tch ⟨i, c :: rest⟩ = starLoop m rec pch ms (n + 1) i (lc m c) ⟨i + 1, rest⟩ := by
+  unfold starLoop
+  simp only [hg, Bool.not_false, if_true, scanLit_skip m ms pch tch tIdx i c rest h1 h2]
+
+theorem starLoop_hit (m : Mode) (rec : Nat → Res) (ms : Bool) (pch : UInt8) (hg : isGlobCharacter pch = false)
+    (n tIdx : Nat) (t : Iter) :
+    starLoop m rec pch ms (n + 1) tIdx pch t =
+      (let res := rec tIdx
+       if res != .noMatch && (!ms || res != .abortToStarStar) then res
+       else if res == .noMatch && !ms && pch == SLASH then .abortToStarStar
+       else match t.next m with
+         | none => .abortAll
+         | some ((i, c), t) => starLoop m rec pch ms n i c t) := by
+  conv => lhs; unfold starLoop
+  obtain ⟨i, rest⟩ := t
+  simp [hg, scanLit_hit]
+  generalize Iter.next m ⟨i, rest⟩ = nx
+  cases nx <;> rfl
+
+theorem starLoop_complete (m : Mode) (rec : Nat → Res) (pch : UInt8) (ms : Bool)
+    (hg : isGlobCharacter pch = false) :
+    ∀ (j n : Nat) (c : UInt8) (tr : Bytes) (tIdx : Nat), tr.length ≤ n →
+      (ms = true ∨ ∀ x ∈ c :: tr, lc m x ≠ 47) →
+      (∀ i, i < j → (∃ x, (c :: tr)[i]? = some x ∧ lc m x = pch) → rec (tIdx + i) = .noMatch) →
+      (∃ x, (c :: tr)[j]? = some x ∧ lc m x = pch) → rec (tIdx + j) = .matched →
+      starLoop m rec pch ms (n + 1) tIdx (lc m c) ⟨tIdx + 1, tr⟩ = .matched := by
+  intro j
+  induction j with
+  | zero =>
+    intro n c tr tIdx _ _ _ hx hm
+    obtain ⟨x, hx1, hx2⟩ := hx
+    simp at hx1; subst hx1
+    rw [hx2, starLoop_hit m rec ms pch hg]
+    simp at hm
+    simp [hm]
+  | succ j ih =>
+    intro n c tr tIdx hn hs hrec hx hm
+    obtain ⟨x, hx1, hx2⟩ := hx
+    cases tr with
+    | nil => simp at hx1
+    | cons c2 tr' =>
+      have hs' : ms = true ∨ ∀ x ∈ c2 :: tr', lc m x ≠ 47 := by
+        rcases hs with h | h
+        · exact Or.inl h
+        · exact Or.inr (fun y hy => h y (by simp at hy ⊢; exact Or.inr hy))
+      have hrec' : ∀ i, i < j → (∃ x, (c2 :: tr')[i]? = some x ∧ lc m x = pch) → rec (tIdx + 1 + i) = .noMatch := by
+        intro i hi hex
+        have := hrec (i + 1) (by omega) (by simpa using hex)
+        rw [← this]; congr 1; omega
+      have hx' : ∃ x, (c2 :: tr')[j]? = some x ∧ lc m x = pch := ⟨x, by simpa using hx1, hx2⟩
+      have hm' : rec (tIdx + 1 + j) = .matched := by rw [← hm]; congr 1; omega
+      have hnot47 : ¬ (ms = false ∧ lc m c = 47) := by
+        intro ⟨h1, h2⟩
+        rcases hs with h | h
+        · rw [h] at h1; cases h1
+        · exact h c (by simp) h2
+      by_cases hc : lc m c = pch
+      · -- a hit that does not match: go on behind it
+        rw [hc, starLoop_hit m rec ms pch hg]
+        have h0 := hrec 0 (by omega) ⟨c, by simp, hc⟩
+        simp at h0
+        have hn' : ∃ n', n = n' + 1 := by
+          simp at hn
+          exact ⟨n - 1, by omega⟩
+        obtain ⟨n', hn'⟩ := hn'
+        subst hn'
+        have hsl : ¬ (ms = false ∧ pch = 47) := by rw [← hc]; exact hnot47
+        have hcond : (Res.noMatch == Res.noMatch && !ms && pch == SLASH) = false := by
+          simp [SLASH]
+          intro h; cases ms <;> simp_all
+        simp only [h0, hcond, Iter.next]
+        simp
+        exact ih n' c2 tr' (tIdx + 1) (by simp at hn; omega) hs' hrec' hx' hm'
+      · rw [starLoop_skip m rec ms pch (lc m c) hg n tIdx (tIdx + 1) c2 tr' hnot47 hc]
+        exact ih n c2 tr' (tIdx + 1) (by simp at hn; omega) hs' hrec' hx' hm'
+
+
+/-- the matcher on a glob-free pattern -/
+def litFull (m : Mode) (lit txt : Bytes) : Res :=
+  match litRun m lit txt with
+  | .error r => r
+  | .ok ts' => if ts'.isEmpty then .matched else .noMatch
+
+theorem litFull_matched_iff (m : Mode) (lit txt : Bytes) :
+    litFull m lit txt = .matched ↔ txt.map (lc m) = lit.map (lc m) := by
+  unfold litFull
+  cases hl : litRun m lit txt with
+  | error r =>
+    rcases litRun_error m lit txt r hl with e | e <;> subst e <;> simp
+    all_goals
+      intro heq
+      have : litRun m lit txt = .ok [] := by
+        rw [litRun_ok_iff]
+        have hlen := congrArg List.length heq
+        simp at hlen
+        refine ⟨by omega, ?_, ?_⟩
+        · rw [← hlen, List.take_length]; exact heq
+        · rw [← hlen]; simp
+      rw [this] at hl; cases hl
+  | ok ts' =>
+    obtain ⟨h1, h2, h3⟩ := (litRun_ok_iff m lit txt ts').mp hl
+    constructor
+    · intro hm
+      have hts : ts' = [] := by
+        cases ts' with
+        | nil => rfl
+        | cons a b => simp at hm
+      rw [hts] at h3
+      have hlen : txt.length ≤ lit.length := by
+        have := congrArg List.length h3
+        simp at this
+        omega
+      have : txt.length = lit.length := by omega
+      rw [← this, List.take_length] at h2
+      exact h2
+    · intro heq
+      have hlen := congrArg List.length heq
+      simp at hlen
+      have : ts' = [] := by rw [h3, ← hlen]; simp
+      simp [this]
+
+theorem litRun_not_abort (m : Mode) : ∀ (lit txt : Bytes), lit.length ≤ txt.length →
+    litRun m lit txt ≠ .error .abortAll := by
+  intro lit
+  induction lit with
+  | nil => intro txt _; simp [litRun]
+  | cons c r ih =>
+    intro txt h
+    cases txt with
+    | nil => simp at h
+    | cons tc tr =>
+      by_cases e : lc m c = lc m tc
+      · simp [litRun, e]; exact ih tr (by simpa using h)
+      · simp [litRun, e]
+
+theorem litFull_long (m : Mode) (lit txt : Bytes) (h : lit.length < txt.length) :
+    litFull m lit txt = .noMatch := by
+  unfold litFull
+  cases hl : litRun m lit txt with
+  | error r =>
+    rcases litRun_error m lit txt r hl with e | e
+    · subst e; exact absurd hl (litRun_not_abort m lit txt (by omega))
+    · subst e; rfl
+  | ok ts' =>
+    obtain ⟨h1, h2, h3⟩ := (litRun_ok_iff m lit txt ts').mp hl
+    have : ts' ≠ [] := by
+      intro e
+      rw [e] at h3
+      have := congrArg List.length h3
+      simp at this
+      omega
+    cases ts' with
+    | nil => exact absurd rfl this
+    | cons a b => simp
+
+theorem recCall_lit (m : Mode) (fuel : Nat) (lit text : Bytes) (k : Nat) (hk : k ≤ text.length)
+    (hg : ∀ c ∈ lit, isGlobCharacter c = false) (hf : lit.length + 1 ≤ fuel) :
+    recCall m fuel 63 (42 :: lit) text 1 k = litFull m lit (text.drop k) := by
+  unfold recCall sliceFrom
+  simp [hk, Iter.ofSlice]
+  obtain ⟨f', hf'⟩ : ∃ f', fuel = (f' + 1) + lit.length := ⟨fuel - lit.length - 1, by omega⟩
+  subst hf'
+  have h := go_litRun m 62 lit (text.drop k) lit [] (text.drop k) (f' + 1) 0 0 hg
+  rw [List.append_nil] at h
+  rw [h]
+  unfold litFull
+  cases litRun m lit (List.drop k text) with
+  | error r => rfl
+  | ok ts' => simp only []; rw [go_nil]
+
+
+
+theorem head_of_drop_map_eq {f : UInt8 → UInt8} {value : Bytes} {j : Nat} {a : UInt8} {rest : Bytes}
+    (h : (value.drop j).map f = a :: rest) : ∃ x, value[j]? = some x ∧ f x = a := by
+  cases hd : value.drop j with
+  | nil => rw [hd] at h; simp at h
+  | cons x r =>
+    rw [hd] at h
+    simp at h
+    refine ⟨x, ?_, h.1⟩
+    have := congrArg (fun l => l[0]?) hd
+    simpa [List.getElem?_drop] using this
+
+/-- `*literal`: matches exactly the texts that end with the literal (given that `*` may cross
+every byte of the text: no path mode, or no slash in the text) -/
+theorem wildmatch_ends_with (m : Mode) (lit value : Bytes) (hg : ∀ c ∈ lit, isGlobCharacter c = false)
+    (hslash : m.noMatchSlash = false ∨ ∀ c ∈ value, c ≠ 47) :
+    C36.wildmatch m (42 :: lit) value = true ↔
+      (lit.length ≤ value.length ∧ (value.drop (value.length - lit.length)).map (lc m) = lit.map (lc m)) := by
+  unfold C36.wildmatch matchRecursive RECURSION_LIMIT
+  simp only [beq_iff_eq, Iter.ofSlice, List.length_cons]
+  have hnoslash : m.noMatchSlash = true → ∀ c ∈ value, lc m c ≠ 47 := by
+    intro h c hc hc47
+    rcases hslash with h' | h'
+    · rw [h] at h'; cases h'
+    · exact h' c hc ((lc_special m c).2.2.2.2.1.mp hc47)
+  cases lit with
+  | nil =>
+    rw [go_star_end]
+    have : ∀ k, sliceFrom value k = some (value.drop k) ∨ sliceFrom value k = none := by
+      intro k; unfold sliceFrom; split <;> simp
+    have hk : (if value.isEmpty then value.length else 0) ≤ value.length := by split <;> omega
+    simp only [sliceFrom, hk, if_true]
+    simp
+    intro hn hmem
+    rcases hslash with h' | h'
+    · rw [hn] at h'; cases h'
+    · exact h' 47 (List.mem_of_mem_drop hmem) rfl
+  | cons l0 lit' =>
+    have hl0 := not_glob ((lc_glob m l0).trans (hg l0 (by simp)))
+    have hpg : isGlobCharacter (lc m l0) = false := (lc_glob m l0).trans (hg l0 (by simp))
+    by_cases hns : m.noMatchSlash = true ∧ lc m l0 = 47
+    · rw [go_star_slash_none hns rfl (by
+        rcases hslash with h' | h'
+        · rw [hns.1] at h'; cases h'
+        · exact h')]
+      constructor
+      · intro h; cases h
+      · rintro ⟨hlen, heq⟩
+        exfalso
+        obtain ⟨x, hx1, hx2⟩ := head_of_drop_map_eq heq
+        have hxm : x ∈ value := List.mem_of_getElem? hx1
+        exact hnoslash hns.1 x hxm (hx2.trans hns.2)
+    · have hrc : ∀ k, k ≤ value.length →
+          recCall m (lit'.length + 1 + 1) 63 (42 :: l0 :: lit') value 1 k = litFull m (l0 :: lit') (value.drop k) :=
+        fun k hk => recCall_lit m _ (l0 :: lit') value k hk hg (by simp)
+      have hsound : ∀ k, recCall m (lit'.length + 1 + 1) 63 (42 :: l0 :: lit') value 1 k = .matched →
+          k ≤ value.length ∧ (value.drop k).map (lc m) = (l0 :: lit').map (lc m) := by
+        intro k hk
+        by_cases hkl : k ≤ value.length
+        · rw [hrc k hkl] at hk
+          exact ⟨hkl, (litFull_matched_iff m _ _).mp hk⟩
+        · unfold recCall sliceFrom at hk
+          simp [hkl] at hk
+      have hfin : ∀ k, k ≤ value.length → (value.drop k).map (lc m) = (l0 :: lit').map (lc m) →
+          ((lit'.length + 1) ≤ value.length ∧
+            (value.drop (value.length - (lit'.length + 1))).map (lc m) = (l0 :: lit').map (lc m)) := by
+        intro k hk heq
+        have hlen := congrArg List.length heq
+        simp at hlen
+        have : value.length - (lit'.length + 1) = k := by omega
+        exact ⟨by omega, by rw [this]; exact heq⟩
+      cases value with
+      | nil =>
+        rw [go_star_lit_nil hl0.1 hns]
+        constructor
+        · intro h
+          obtain ⟨k, hk⟩ := starLoop_sound m _ _ _ _ _ _ _ h
+          obtain ⟨h1, h2⟩ := hsound k hk
+          exact hfin k h1 h2
+        · intro ⟨h, _⟩; simp at h
+      | cons tc tr =>
+        rw [go_star_lit hl0.1 hns]
+        constructor
+        · intro h
+          obtain ⟨k, hk⟩ := starLoop_sound m _ _ _ _ _ _ _ h
+          obtain ⟨h1, h2⟩ := hsound k hk
+          exact hfin k h1 h2
+        · intro ⟨hlen, heq⟩
+          simp only [List.length_cons] at heq hlen
+          obtain ⟨x, hx1, hx2⟩ := head_of_drop_map_eq heq
+          have := starLoop_complete m (fun k => recCall m (lit'.length + 1 + 1) 63 (42 :: l0 :: lit') (tc :: tr) 1 k)
+            (lc m l0) (!m.noMatchSlash) hpg ((tc :: tr).length - (lit'.length + 1)) tr.length tc tr 0 (Nat.le_refl _)
+            (by
+              cases hn : m.noMatchSlash with
+              | false => left; rfl
+              | true => right; exact hnoslash hn)
+            (by
+              intro i hi _
+              simp only [Nat.zero_add]
+              rw [hrc i (by omega)]
+              apply litFull_long
+              simp at hi ⊢
+              omega)
+            ⟨x, hx1, hx2⟩
+            (by
+              simp only [Nat.zero_add]
+              rw [hrc _ (by omega)]
+              exact (litFull_matched_iff m _ _).mpr heq)
+          simpa using this
+
+
+
+/-- what `parse::pattern` guarantees about the cached fields of a `Pattern` -/
+structure Pattern.WellFormed (pat : Pattern) : Prop where
+  pos : pat.firstWildcardPos = C36.firstWildcardPos pat.text
+  ends : pat.mode.endsWith = (match pat.text with
+    | 42 :: r => (C36.firstWildcardPos r).isNone
+    | _ => false)
+
+theorem parsePattern_wf (raw : Bytes) (alter : Bool) (pat : Pattern) (h : parsePattern raw alter = some pat) :
+    pat.WellFormed := by
+  unfold parsePattern at h
+  split at h
+  · cases h
+  · simp only at h
+    split at h
+    · cases h
+    · simp only [Option.some.injEq] at h
+      subst h
+      exact ⟨rfl, rfl⟩
+
+theorem lc_icase {m : Mode} (h : m.ignoreCase = true) (c : UInt8) : lc m c = toAsciiLowercase c := by
+  simp [lc, h]
+
+theorem eqIgnore_iff (a b : Bytes) :
+    eqIgnoreAsciiCase a b = true ↔ a.map toAsciiLowercase = b.map toAsciiLowercase := by
+  unfold eqIgnoreAsciiCase
+  simp only [Bool.and_eq_true, beq_iff_eq]
+  constructor
+  · exact fun h => h.2
+  · intro h
+    refine ⟨?_, h⟩
+    have := congrArg List.length h
+    simpa using this
+
+theorem map_lc_id {m : Mode} (h : m.ignoreCase = false) (l : Bytes) : l.map (lc m) = l := by
+  have : lc m = id := by funext c; simp [lc, h]
+  rw [this]; simp
+
+theorem map_lc_icase {m : Mode} (h : m.ignoreCase = true) (l : Bytes) : l.map (lc m) = l.map toAsciiLowercase := by
+  have : lc m = toAsciiLowercase := by funext c; simp [lc, h]
+  rw [this]
+
+
+theorem bool_eq_of_iff {a b : Bool} (h : a = true ↔ b = true) : a = b := by
+  cases a <;> cases b <;> simp_all
+
+/-- The shortcuts of `Pattern::matches` (plain comparison for glob-free patterns, suffix comparison
+for `*literal`, the literal-prefix pre-check) never change the result of `wildmatch`. -/
+theorem matches_eq_wildmatch (pat : Pattern) (hwf : pat.WellFormed) (value : Bytes) (m : Mode) :
+    pat.matches value m = C36.wildmatch m pat.text value := by
+  unfold Pattern.matches
+  rw [hwf.pos]
+  cases hfw : C36.firstWildcardPos pat.text with
+  | none =>
+    -- no glob character at all
+    have hg := firstWildcardPos_none.mp hfw
+    apply bool_eq_of_iff
+    rw [wildmatch_literal m pat.text value hg]
+    cases hic : m.ignoreCase with
+    | false =>
+      simp only [map_lc_id hic, Bool.false_eq_true, if_false, beq_iff_eq]
+      exact eq_comm
+    | true =>
+      simp only [map_lc_icase hic, if_true, eqIgnore_iff]
+      exact eq_comm
+  | some pos =>
+    obtain ⟨hpos, hpre, _⟩ := firstWildcardPos_some hfw
+    simp only
+    by_cases hends : (pat.mode.endsWith && (!m.noMatchSlash || !value.contains 47)) = true
+    · -- `*literal`
+      rw [if_pos hends]
+      simp only [Bool.and_eq_true, Bool.or_eq_true, Bool.not_eq_true'] at hends
+      obtain ⟨he, hsl⟩ := hends
+      rw [hwf.ends] at he
+      cases htext : pat.text with
+      | nil => rw [htext] at he; simp at he
+      | cons a r =>
+        rw [htext] at he hfw
+        have ha : a = 42 ∧ C36.firstWildcardPos r = none := by
+          split at he
+          · rename_i r' heq
+            simp at heq
+            obtain ⟨h1, h2⟩ := heq
+            subst h1 h2
+            exact ⟨rfl, by simpa using he⟩
+          · cases he
+        obtain ⟨ha, he2⟩ := ha
+        subst ha
+        have hg := firstWildcardPos_none.mp he2
+        have hp0 : pos = 0 := by
+          simp [C36.firstWildcardPos, isGlobCharacter] at hfw
+          exact hfw.symm
+        subst hp0
+        have hsl' : m.noMatchSlash = false ∨ ∀ c ∈ value, c ≠ 47 := by
+          rcases hsl with h | h
+          · exact Or.inl h
+          · right
+            intro c hc h47
+            subst h47
+            simp at h
+            exact h hc
+        apply bool_eq_of_iff
+        rw [wildmatch_ends_with m r value hg hsl']
+        simp only [List.drop_succ_cons, List.drop_zero, Nat.zero_add]
+        cases hic : m.ignoreCase with
+        | false =>
+          simp only [map_lc_id hic, Bool.false_eq_true, if_false]
+          rw [List.isSuffixOf_iff_suffix, List.suffix_iff_eq_drop]
+          constructor
+          · intro h
+            refine ⟨?_, h.symm⟩
+            have := congrArg List.length h
+            simp at this
+            omega
+          · intro h; exact h.2.symm
+        | true =>
+          simp only [map_lc_icase hic, if_true]
+          by_cases hl : value.length < r.length
+          · simp [hl]; omega
+          · simp only [hl, if_false, eqIgnore_iff]
+            constructor
+            · intro h; exact ⟨by omega, h.symm⟩
+            · intro h; exact h.2.symm
+    · rw [if_neg hends]
+      -- literal prefix, then wildmatch
+      by_cases hw : C36.wildmatch m pat.text value = true
+      · obtain ⟨h1, h2⟩ := wildmatch_prefix m pat.text value pos (by omega) hpre hw
+        rw [hw]
+        cases hic : m.ignoreCase with
+        | false =>
+          simp only [map_lc_id hic] at h2
+          have : (pat.text.take pos).isPrefixOf value = true := by
+            rw [List.isPrefixOf_iff_prefix, List.prefix_iff_eq_take]
+            rw [← h2]; simp [Nat.min_eq_left h1]
+          simp [this]
+        | true =>
+          simp only [map_lc_icase hic] at h2
+          have hl : ¬ value.length < pos := by omega
+          have : eqIgnoreAsciiCase (value.take pos) (pat.text.take pos) = true := (eqIgnore_iff _ _).mpr h2
+          simp [hl, this]
+      · simp only [Bool.not_eq_true] at hw
+        rw [hw]
+        split <;> simp
+
+
 end GixModel.C36
